@@ -457,9 +457,24 @@ Fixpoint is_prefix_from (k : N) (l : list N) : bool :=
   | x :: r => (x =? k) && is_prefix_from (k + 1) r
   end.
 
-(* a log entry: from a message timer, never early, never after an abort took place
-   strictly earlier, at most once *)
-Definition check_entry (tis : list tinfo) (log : list (nat * N * N)) (e : nat * N * N) : bool :=
+(* the instants at which the scenario lets the runtime run: start and after every advance *)
+Fixpoint time_points (ops : list op) (t : N) : list N :=
+  match ops with
+  | [] => [t]
+  | OAdv dt :: r => t :: time_points r (t + dt)
+  | _ :: r => time_points r t
+  end.
+
+Fixpoint first_ge (pts : list N) (x : N) : option N :=
+  match pts with
+  | [] => None
+  | p :: r => if x <=? p then Some p else first_ge r x
+  end.
+
+(* a log entry: from a message timer, never early, not later than the first instant at which
+   the runtime got to run at or after the k-th wheel deadline (k periods after creation: no
+   drift), never after an abort took place strictly earlier, at most once *)
+Definition check_entry (pts : list N) (tis : list tinfo) (log : list (nat * N * N)) (e : nat * N * N) : bool :=
   match e with
   | (i, k, t) =>
       match nth_error tis i with
@@ -471,6 +486,10 @@ Definition check_entry (tis : list tinfo) (log : list (nat * N * N)) (e : nat * 
            | _ => false
            end)
           && (ti_born ti + k * ti_dur ti <=? t)
+          && (match first_ge pts (ceil_ms (ti_born ti + k * ti_dur ti)) with
+              | Some p => t <=? p
+              | None => false
+              end)
           && (match ti_abort ti with Some ta => t <=? ta | None => true end)
           && Nat.eqb (count_log i k log) 1
       end
@@ -539,7 +558,7 @@ Definition check_probe (tis : list tinfo) (ex : option (reason * N)) (p : N * bo
 
 Definition check_C12 (ops : list op) (o : obs) : bool :=
   let tis := scan ops 0 [] in
-  forallb (check_entry tis (o_log o)) (o_log o)
+  forallb (check_entry (time_points ops 0) tis (o_log o)) (o_log o)
   && forallb (fun e => match o_exit o with Some (_, te) => snd e <=? te | None => true end) (o_log o)
   && check_all_res (o_log o) (o_exit o) 0 tis (o_res o)
   && check_exit ops tis (o_exit o)
